@@ -710,8 +710,8 @@ def QuantFree (content : List Char) (results : List Gen.UpdResult) : Prop :=
 
 /-- intermediate statement of U4: the written document is read (it parses, its expectation lines compile) with
 the same test configurations as the original, test by test.  Formerly an undischarged hypothesis; proved in
-`Lemmas/UpdateRunConfig.lean` (`sameConfigs_of_guard`) and `Lemmas/UpdateRunParses.lean` (`written_parses`)
-under the decidable guard `CfgBlankLed`; false without it (`UpdateRunWitness`, W5) -/
+`Lemmas/UpdateRunConfig.lean` (`sameConfigs_of_guard`) and `Lemmas/UpdateRunParses.lean` (`written_parses`);
+until fix 15b47d2 under the guard `CfgBlankLed` only (`UpdateRunWitness`, W5) -/
 def SameConfigs (content text : List Char) : Prop :=
   ∃ tests tests', docTests content = some tests ∧ docTests text = some tests' ∧
     tests'.map (·.test.cfg) = tests.map (·.test.cfg)
